@@ -148,11 +148,27 @@ func progMem(r *rand.Rand, n int, limit uint32, mn uint32, mx *uint32) *prog {
 		wb.MemorySize(), wb.I32Const(16), wb.Op(wasm.OpcodeI32Shl), wb.I32Const(4), wb.Op(wasm.OpcodeI32Sub),
 		wb.LocalTee(0), wb.I32Const(0x5a5a5a5a), wb.MemArg(wasm.OpcodeI32Store, 2, 0),
 		wb.LocalGet(0), wb.MemArg(wasm.OpcodeI32Load, 2, 0))})
+	// access, grow (the buffer may move), access again through the base cached before the growth, in ONE function;
+	// also with the growth inside a callee
+	growFn := m.AddFunc(wb.Func{Params: []byte{wb.I32}, Body: wb.Cat(wb.LocalGet(0), wb.MemoryGrow(), wb.Op(wasm.OpcodeDrop))})
+	for _, viaCall := range []bool{false, true} {
+		name := "touch_grow_touch"
+		grow := wb.Cat(wb.LocalGet(1), wb.MemoryGrow(), wb.Op(wasm.OpcodeDrop))
+		if viaCall {
+			name = "touch_callgrow_touch"
+			grow = wb.Cat(wb.LocalGet(1), wb.Call(growFn))
+		}
+		m.AddFunc(wb.Func{Params: []byte{wb.I32, wb.I32}, Results: []byte{wb.I32}, Export: name, Body: wb.Cat(
+			wb.LocalGet(0), wb.I32Const(7), wb.MemArg(wasm.OpcodeI32Store, 2, 0),
+			grow,
+			wb.LocalGet(0), wb.I32Const(42), wb.MemArg(wasm.OpcodeI32Store, 2, 0),
+			wb.LocalGet(0), wb.MemArg(wasm.OpcodeI32Load, 2, 0))})
+	}
 	if mn > 0 {
 		off := wb.I32Const(int32(r.Intn(1000)))
 		m.M.DataSection = append(m.M.DataSection, wasm.DataSegment{OffsetExpression: wasm.ConstantExpression{Opcode: wasm.OpcodeI32Const, Data: off[1:]}, Init: []byte("initial data segment")})
 	}
-	p := &prog{Kind: "mem", Name: fmt.Sprintf("mem%d-min%d-max%s-limit%d", n, mn, maxStr(mx), limit), Limit: limit, NFuncs: 6, HasMem: true, MemMin: mn, MemMax: mx}
+	p := &prog{Kind: "mem", Name: fmt.Sprintf("mem%d-min%d-max%s-limit%d", n, mn, maxStr(mx), limit), Limit: limit, NFuncs: 9, HasMem: true, MemMin: mn, MemMax: mx}
 	p.Calls = append(p.Calls, call{"size", nil}, call{"load", []uint64{0}}, call{"load", []uint64{uint64(mn)*65536 - 4}}, call{"load", []uint64{uint64(mn) * 65536}})
 	for k := 0; k < 8; k++ {
 		switch r.Intn(5) {
@@ -160,6 +176,8 @@ func progMem(r *rand.Rand, n int, limit uint32, mn uint32, mx *uint32) *prog {
 			p.Calls = append(p.Calls, call{"grow", []uint64{uint64(r.Intn(int(limit) + 3))}}, call{"size", nil})
 		case 2:
 			p.Calls = append(p.Calls, call{"grow_touch", []uint64{uint64(r.Intn(3))}})
+			a := uint64(16 + 4*r.Intn(8))
+			p.Calls = append(p.Calls, call{[]string{"touch_grow_touch", "touch_callgrow_touch"}[r.Intn(2)], []uint64{a, uint64(1 + r.Intn(2))}}, call{"load", []uint64{a}})
 		case 3:
 			a := uint64(r.Intn(int(limit+1))) * 65536
 			p.Calls = append(p.Calls, call{"fill", []uint64{a - uint64(r.Intn(8)), 16, uint64(r.Intn(256))}})
